@@ -146,6 +146,8 @@ func init() {
 			ruleIPInfoFromPool(c, "C06.R2")
 			c.Rule("C06.R3", "filter/bind lookup and node-subnet agreement", 12)
 			ruleStickyLookup(c, "C06.R3")
+			c.Rule("C06.R6", "a pool's node-subnet set is read-only after ConfigurePool; hand-outs are copies", 2)
+			rulePoolSetsImmutable(c, "C06.R6")
 			c.Rule("C06.R5", "reload attaches an allocation to the pool whose ranges contain it", 2)
 			ruleReloadDeletesOnlyForeign(c, "C06.R5")
 			ruleReloadPoolMatch(c, "C06.R5")
